@@ -237,11 +237,18 @@ namespace nmtools::view
             if constexpr (meta::is_resizable_v<slices_type>) {
                 slices.resize(dim);
             }
+            // following numpy, a negative axis counts from the last axis
+            using common_t = meta::promote_index_t<decltype(axis),size_t>;
+            auto m_axis = (common_t)axis;
+            if constexpr (meta::is_signed_v<common_t>) {
+                if (m_axis < 0) {
+                    m_axis += (common_t)dim;
+                }
+            }
             for (size_t i=0; i<dim; i++) {
                 // index at axis i
                 auto s = at(indices_,i);
-                using common_t = meta::promote_index_t<decltype(axis),size_t>;
-                auto start = (common_t)i==(common_t)axis ? 0 : s;
+                auto start = (common_t)i==m_axis ? 0 : s;
                 auto stop  = s + 1;
                 at(slices,i) = {start,stop};
             }
